@@ -588,6 +588,119 @@ class HeapOps(HeapExecutor):
                     out.append(r)
         return out
 
+    def py_list_of(self, v, st, node):
+        out = []
+        nr = st.assume(Not(Is('VRef', v)))
+        if nr is not None:
+            a = nr.assume(Or(Is('VList', v), Is('VTuple', v)))
+            if a is not None:
+                seq = Ite(Is('VList', v), Acc('lv', v), Acc('tv', v))
+                out.append((a, VList(seq)))
+            b = nr.assume(And(Not(Is('VList', v)), Not(Is('VTuple', v))))
+            if b is not None:
+                self.unsupported_if_feasible(b, 'list() of non-sequence at line %s' % node.lineno)
+        r = st.assume(Is('VRef', v))
+        if r is not None and self.may_be_ref(v, r):
+            cands = self.classes_of(v, r)
+            if cands is None:
+                self._unknown_cls(v, r, 'list()')
+                return out
+            for cname, cond in cands:
+                o = r.assume(cond)
+                if o is None:
+                    continue
+                ci = self.prog.classes.get(cname)
+                if cname == 'list' or (ci and 'list' in ci.builtin_bases()):
+                    l = self.rv(v)
+                    n = self.list_len(l, o)
+                    seq = const(fresh_name('copy'), VSEQ)
+                    j = bvar(fresh_name('j'), INT)
+                    fact = And(Eq(SeqLen(seq), n),
+                               Forall([j], Implies(And(Le(intlit(0), j), Lt(j, n)),
+                                                   Eq(SeqNth(seq, j), self.list_item(l, j, o))),
+                                      patterns=[(SeqNth(seq, j),)]))
+                    out.append((o.assume(fact), VList(seq)))
+                else:
+                    self.unsupported_if_feasible(o, 'list() of %s at line %s' % (cname, node.lineno))
+        return out
+
+    def ex_ListComp(self, e, st):
+        if len(e.generators) != 1 or e.generators[0].is_async:
+            raise Unsupported('nested list comprehension at line %s' % e.lineno)
+        gen = e.generators[0]
+        out = []
+        for o, it in self.ev(gen.iter, st):
+            if not o.running:
+                out.append((o, None))
+                continue
+            items = self.concrete_items(it, o)
+            if items is not None:
+                outs = [(o, [])]
+                for item in items:
+                    nxt = []
+                    for o2, acc in outs:
+                        if not o2.running:
+                            nxt.append((o2, None))
+                            continue
+                        for a in self.assign(gen.target, item, o2):
+                            if not a.running:
+                                nxt.append((a, None))
+                                continue
+                            conds = [(a, TRUE)]
+                            for c in gen.ifs:
+                                nc = []
+                                for a2, acc_c in conds:
+                                    for a3, cv in self.ev_cond(c, a2):
+                                        if a3.running:
+                                            nc.append((a3, And(acc_c, cv)))
+                                        else:
+                                            nxt.append((a3, None))
+                                conds = nc
+                            for a2, cnd in conds:
+                                take = a2.assume(cnd)
+                                if take is not None:
+                                    for a4, v in self.ev(e.elt, take):
+                                        nxt.append((a4, acc + [v] if a4.running else None))
+                                skip = a2.assume(Not(cnd))
+                                if skip is not None:
+                                    nxt.append((skip, acc))
+                    outs = nxt
+                for o2, acc in outs:
+                    out.append((o2, VList(seq_of(acc)) if o2.running else None))
+                continue
+            # symbolic heap list / sequence value: fresh result sequence, length (and elements) by facts
+            ref = o.assume(Is('VRef', it))
+            if ref is None or not self.may_be_ref(it, o):
+                self.unsupported_if_feasible(o, 'list comprehension over symbolic value at line %s' % e.lineno)
+                continue
+            nonref = o.assume(Not(Is('VRef', it)))
+            if nonref is not None:
+                self.unsupported_if_feasible(nonref, 'list comprehension over non-object at line %s' % e.lineno)
+            l = self.rv(it)
+            n = self.list_len(l, ref)
+            seq = const(fresh_name('comp'), VSEQ)
+            facts = [Le(SeqLen(seq), n)] if gen.ifs else [Eq(SeqLen(seq), n)]
+            if not gen.ifs:
+                j = bvar(fresh_name('j'), INT)
+                b = ref.assume(And(Le(intlit(0), j), Lt(j, n)))
+                item = self.list_item(l, j, b)
+                self.know_item(b, it, item)
+                elems = []
+                for a in self.assign(gen.target, item, b):
+                    if a.running:
+                        elems.extend(self.ev(e.elt, a))
+                elems = [(s2, v) for s2, v in elems if s2.running or self.path_feasible(s2)]
+                elems = self.merge(elems, b)
+                if len(elems) == 1 and elems[0][0].running and elems[0][0].heap == b.heap:
+                    facts.append(Forall([j], Implies(And(Le(intlit(0), j), Lt(j, n)),
+                                                     Eq(SeqNth(seq, j), elems[0][1])),
+                                        patterns=[(SeqNth(seq, j),)]))
+                elif any(not s2.running for s2, _ in elems):
+                    raise Unsupported('list comprehension element may raise at line %s' % e.lineno)
+            r = ref.assume(And(*facts))
+            out.append((r, VList(seq)))
+        return out
+
     def writes_heap(self, stmts):
         for st_ in stmts:
             for node in ast.walk(st_):
